@@ -144,6 +144,13 @@ class BaseNode(Node):
         """
         if node.keyword!='mod' and node.dtype!=self.dtype:
             raise Exception(f"Datatype {self.dtype} of node '{self.name}' cannot be changed to {node.dtype}")
+        if node.keyword=='mod' and (node.value_fn or node.value_expr):
+            # a modification without data type takes the type of this node: evaluate its function/expression as such
+            typed = self.copy()
+            typed.code, typed.source, typed.units_raw = node.code, node.source, node.units_raw
+            typed.value_fn, typed.value_expr = node.value_fn, node.value_expr
+            typed.parse(env)
+            node.value_raw = typed.value_raw
         if not self.value:  # create a dummy value if none
             self.set_value(node.value_raw)
         # copy value type modify values and units
